@@ -70,9 +70,14 @@ def save_model_with_external_data(
     """Save the model with external data. The model is unchanged after saving."""
 
     # TODO(#1835): Decide if we want to externalize large attributes as well
+    all_graphs = list(model.graphs())
+    for function in model.functions.values():
+        # model.graphs() does not visit the bodies of model-local functions
+        all_graphs.append(function.graph)
+        all_graphs.extend(function.subgraphs())
     uninitialized_values = [
         value.name
-        for graph in model.graphs()
+        for graph in all_graphs
         for value in graph.initializers.values()
         if value.const_value is None
     ]
